@@ -82,6 +82,27 @@ Fixpoint upd {X} (l : list X) (i : nat) (x : X) : list X :=
 
 Definition is_some {X} (o : option X) : bool := match o with Some _ => true | None => false end.
 
+(* ---------- accessors uniform in the position (pre = true: forward-pre hook, false: forward hook) ---------- *)
+Definition hnd (k : hook) (pre : bool) : option handle := if pre then k_preh k else k_posth k.
+Definition set_hnd (k : hook) (pre : bool) (o : option handle) : hook :=
+  if pre then mkHook (k_cfg k) (k_alive k) (k_te k) (k_ee k) o (k_posth k) (k_fin k)
+  else mkHook (k_cfg k) (k_alive k) (k_te k) (k_ee k) (k_preh k) o (k_fin k).
+Definition set_fin (k : hook) (f : option (option handle * option handle)) : hook :=
+  mkHook (k_cfg k) (k_alive k) (k_te k) (k_ee k) (k_preh k) (k_posth k) f.
+Definition c_has (c : cfg) (pre : bool) : bool := if pre then c_pre c else c_post c.
+Definition c_prepend (c : cfg) (pre : bool) : bool := if pre then c_pre_prepend c else c_post_prepend c.
+Definition c_bad (c : cfg) (pre : bool) : bool := if pre then c_pre_bad c else c_post_bad c.
+(* always_call exists for forward hooks only *)
+Definition alw (c : cfg) (pre : bool) : bool := if pre then false else c_always c.
+
+Definition lst (md : module) (pre : bool) : list entry := if pre then m_pre md else m_post md.
+Definition set_lst (md : module) (pre : bool) (l : list entry) : module :=
+  if pre then mkMod (m_training md) l (m_post md) else mkMod (m_training md) (m_pre md) l.
+Definition mod_lst (mods : list module) (m : nat) (pre : bool) : list entry :=
+  match nth_error mods m with Some md => lst md pre | None => [] end.
+Definition mod_set_lst (mods : list module) (m : nat) (pre : bool) (l : list entry) : list module :=
+  match nth_error mods m with Some md => upd mods m (set_lst md pre l) | None => mods end.
+
 (* ---------- torch side ---------- *)
 (* OrderedDict insertion, then move_to_end(last=False) when prepend *)
 Definition add_entry (prepend : bool) (e : entry) (l : list entry) : list entry :=
@@ -92,13 +113,7 @@ Definition remove_id (i : nat) (l : list entry) : list entry :=
 
 (* RemovableHandle.remove(): delete the key from the hooks dict (and from the extra dicts) if present *)
 Definition remove_handle (mods : list module) (hd : handle) : list module :=
-  match nth_error mods (hd_mod hd) with
-  | Some md =>
-      upd mods (hd_mod hd)
-        (if hd_pre hd then mkMod (m_training md) (remove_id (hd_id hd) (m_pre md)) (m_post md)
-         else mkMod (m_training md) (m_pre md) (remove_id (hd_id hd) (m_post md)))
-  | None => mods
-  end.
+  mod_set_lst mods (hd_mod hd) (hd_pre hd) (remove_id (hd_id hd) (mod_lst mods (hd_mod hd) (hd_pre hd))).
 
 (* _detach_handles(handles...): for h in handles: if h: h.remove() *)
 Definition detach_one (mods : list module) (o : option handle) : list module :=
@@ -185,17 +200,21 @@ Definition call (w : world) (m : nat) (fail : bool) : list event * option err :=
 Definition set_hook (w : world) (h : nat) (k : hook) : world :=
   mkW (upd (w_hooks w) h k) (w_mods w) (w_next w).
 
-(* module.register_forward_pre_hook(fn, prepend=...) / register_forward_hook(fn, prepend=..., always_call=...) *)
-Definition add_pre_entry (mods : list module) (m : nat) (prepend : bool) (e : entry) : list module :=
-  match nth_error mods m with
-  | Some md => upd mods m (mkMod (m_training md) (add_entry prepend e (m_pre md)) (m_post md))
-  | None => mods
-  end.
-Definition add_post_entry (mods : list module) (m : nat) (prepend : bool) (e : entry) : list module :=
-  match nth_error mods m with
-  | Some md => upd mods m (mkMod (m_training md) (m_pre md) (add_entry prepend e (m_post md)))
-  | None => mods
-  end.
+(* one statement of Hook.register:
+     self.__prehook_handle  = module.register_forward_pre_hook(lambda ...: weakself().__wrapped_prehook(...), **prehook_kwargs)
+     self.__posthook_handle = module.register_forward_hook   (lambda ...: weakself().__wrapped_posthook(...), **posthook_kwargs)
+   torch: handle = RemovableHandle(dict); dict[handle.id] = fn; always_called[handle.id] = True; move_to_end if prepend.
+   None: torch rejected the keyword arguments (TypeError), nothing was changed by this statement. *)
+Definition reg_at (pre : bool) (w : world) (h : nat) (k : hook) (m : nat) : option (world * hook) :=
+  if c_bad (k_cfg k) pre then None
+  else
+    let k' := set_hnd k pre (Some (mkHandle m pre (w_next w))) in
+    Some (mkW (upd (w_hooks w) h k')
+              (mod_set_lst (w_mods w) m pre
+                 (add_entry (c_prepend (k_cfg k) pre) (mkEntry (w_next w) h (alw (k_cfg k) pre))
+                            (mod_lst (w_mods w) m pre)))
+              (S (w_next w)),
+          k').
 
 (* Hook.register(self, module) *)
 Definition hook_register (w : world) (h : nat) (k : hook) (m : nat) : world * option err :=
@@ -204,34 +223,19 @@ Definition hook_register (w : world) (h : nat) (k : hook) (m : nat) : world * op
     match nth_error (w_mods w) m with
     | None => (w, Some EType)                                  (* argtest.instance("module", ...) *)
     | Some _ =>
-        let c := k_cfg k in
-        (* if self._prehook_call: self.__prehook_handle = module.register_forward_pre_hook(lambda ..., **kwargs) *)
-        let r1 : option (list module * nat * option handle) :=
-          if c_pre c then
-            if c_pre_bad c then None
-            else Some (add_pre_entry (w_mods w) m (c_pre_prepend c) (mkEntry (w_next w) h false),
-                       S (w_next w), Some (mkHandle m true (w_next w)))
-          else Some (w_mods w, w_next w, k_preh k) in
-        match r1 with
+        (* if self._prehook_call: ... *)
+        match (if c_pre (k_cfg k) then reg_at true w h k m else Some (w, k)) with
         | None => (w, Some EType)
-        | Some (mods1, next1, preh1) =>
-            (* if self._posthook_call: self.__posthook_handle = module.register_forward_hook(lambda ..., **kwargs) *)
-            let r2 : option (list module * nat * option handle) :=
-              if c_post c then
-                if c_post_bad c then None
-                else Some (add_post_entry mods1 m (c_post_prepend c) (mkEntry next1 h (c_always c)),
-                           S next1, Some (mkHandle m false next1))
-              else Some (mods1, next1, k_posth k) in
-            match r2 with
+        | Some (w1, k1) =>
+            (* if self._posthook_call: ... *)
+            match (if c_post (k_cfg k) then reg_at false w1 h k1 m else Some (w1, k1)) with
             | None =>
                 (* the exception leaves the pre-hook registered, its handle stored, and the finalizer untouched *)
-                (mkW (upd (w_hooks w) h (mkHook c (k_alive k) (k_te k) (k_ee k) preh1 (k_posth k) (k_fin k)))
-                     mods1 next1, Some EType)
-            | Some (mods2, next2, posth2) =>
+                (w1, Some EType)
+            | Some (w2, k2) =>
                 (* if self.__finalizer: self.__finalizer.detach();
                    self.__finalizer = weakref.finalize(self, _detach_handles, pre, post) *)
-                (mkW (upd (w_hooks w) h (mkHook c (k_alive k) (k_te k) (k_ee k) preh1 posth2 (Some (preh1, posth2))))
-                     mods2 next2, None)
+                (set_hook w2 h (set_fin k2 (Some (k_preh k2, k_posth k2))), None)
             end
         end
     end.
